@@ -252,8 +252,8 @@ def report_miri_violation(prop, seed, v):
 MIRI_PLAN = {
     "C05": [("x86_64", 48, 1600, "", ""), ("aarch64", 48, 1600, "", ""),
             ("x86_64", 0, 800, "-Ctarget-feature=+avx2", ""), ("i686", 0, 600, "", ""), ("s390x", 0, 600, "", "")],
-    "C06": [("aarch64", 16, 800, "", "")],
-    "C07": [("aarch64", 16, 800, "", "")],
+    "C06": [("aarch64", 16, 800, "", ""), ("s390x", 32, 800, "", ""), ("i686", 0, 400, "", "")],
+    "C07": [("aarch64", 24, 800, "", ""), ("s390x", 8, 400, "", ""), ("x86_64", 0, 400, "-Ctarget-feature=+avx2", "")],
     "C08": [("s390x", 0, 400, "", "")],
     "C14": [("i686", 32, 800, "", ""), ("s390x", 0, 800, "", ""), ("aarch64", 0, 800, "", "")],
     "C15": [("x86_64", 64, 2048, "", "-Zmiri-preemption-rate=0.1"),
